@@ -21,6 +21,29 @@ CHECKS = {
             'n_jobs), near-miss tables (one token short of qualifying for every size pair) and all '
             'small arrangements with all three operators',
             'boundary reference-model oracle on every output row (soundness / once / score)'),
+    'C03': ('real edit_distance_join executions judged by an own Levenshtein DP: exhaustive string '
+            'universes over small alphabets on both sides for every (q, padding, set/bag mode, '
+            'threshold, operator), seeded mutation neighbourhoods in random table contexts, 1x1 '
+            'tables; completeness demanded exactly for pairs whose q-gram bags intersect',
+            'boundary oracle (own Levenshtein + fresh q-gram bags) over exhaustive small universes and mutation neighbourhoods'),
+    'C04': ('SizeFilter/PrefixFilter/PositionFilter/SuffixFilter under all five measures and '
+            'OverlapFilter driven through filter_pair, filter_tables and filter_candset on tight '
+            'tables (every size pair, least qualifying overlap), overlap-size tables, exhaustive '
+            'string universes for EDIT_DISTANCE, all small arrangements and random tables; every '
+            'model-required pair must survive. SuffixFilter drops are an open known finding, '
+            'attributed only when a pinned copy of its estimate rejects the same inputs',
+            'boundary reference-model oracle on the three filter entry points; mechanism classifier for the known SuffixFilter finding'),
+    'C05': ('real apply_matcher executions replayed row by row with the same similarity function on '
+            'freshly tokenised values: identical row sequence, _id, keys, projection and score for '
+            'all six operators, thresholds on attained scores, missing values, cached and uncached '
+            'token paths (forced by padding), n_jobs 1..64 and -1, threading and loky backends',
+            'boundary replay oracle (row-by-row reference evaluation) + metamorphic cache/n_jobs variants; call counter proves both cache paths ran'),
+    'C06': ('filter_candset output compared with the positional selection computed from the same '
+            'filter object\'s filter_pair for all five filters, all measures, random candidate sets, '
+            'n_jobs and backends; OverlapFilter filter_pair/filter_tables compared with the model '
+            'overlap for sizes 1..5 and operators >=,>,=, including every subset pair of a small '
+            'vocabulary',
+            'two-path consistency monitor (filter_candset vs filter_pair) + independent exact overlap oracle, exhaustive small vocabulary'),
 }
 
 NOT_YET = 'check not yet built in this session'
